@@ -180,7 +180,7 @@ def coq_eval(name, text, timeout=1500):
     os.makedirs(d, exist_ok=True)
     p = os.path.join(d, name + ".v")
     open(p, "w").write(text)
-    rc, o = sh(["bash", "-c", "ulimit -s unlimited 2>/dev/null; exec coqc -Q . SeataV -w -notation-overridden Run/%s.v" % name],
+    rc, o = sh(["bash", "-c", "ulimit -s unlimited 2>/dev/null; exec coqc -noglob -Q . SeataV -w -notation-overridden Run/%s.v" % name],
                cwd=COQ, timeout=timeout)
     return rc == 0, o
 
